@@ -23,6 +23,7 @@ var c17Members = []string{
 	"", "{}", `{"id":1,"properties":{"a":[1,{"b":"c"}]}}`, `{"properties":null}`, " { \"id\" : \"x\" ,\n \"properties\" : { } } ",
 	`{"feature":1,"id":2}`, `{"a\"b\\":1,"é":"é"}`, `[1,2]`, `not json`, `{"id":1`, `"str"`, `{"properties":{"type":"Circle","radius":5}}`,
 	`{"bbox":[1,2,3,4],"bbox":[5,6,7,8]}`, `{"id":1e999}`, `null`, `{"properties":1,"x":{"type":"Point"}}`,
+	"{ }", " {} ", "{\n}", `{"feature":1}`, `{"feature":{"a":[1]}}`, `{"feature":1,"feature":2}`, `{"a":1,"feature":2}`, `[]`, `{"":0}`, `{"properties":{}}`, `{"id":"\u0000\"\\"}`,
 }
 
 // template: a constructor taking a flat ordinate vector
